@@ -584,7 +584,7 @@ def check_pairs(ctx, lat, G, case, rng):
     for k, dist in enumerate(fd[:3]):
         if k >= len(dists):
             break
-        if abs(dist - dists[k]) > 1e-6:
+        if not (abs(dist - dists[k]) <= 1e-6):
             ctx.violation('find_coupling_pairs:distance', 'distance #%d = %r expected %r' % (k, dist, dists[k]), case)
             return
         got = [(int(u1), int(u2), tuple(int(x) for x in np.asarray(dx).tolist())) for (u1, u2, dx) in found[dist]]
@@ -596,7 +596,7 @@ def check_pairs(ctx, lat, G, case, rng):
     # distance()
     d, u1, u2, dx = cand[int(rng.integers(len(cand)))]
     try:
-        if abs(float(lat.distance(u1, u2, np.array(dx))) - d) > 1e-6:
+        if not (abs(float(lat.distance(u1, u2, np.array(dx))) - d) <= 1e-6):
             ctx.violation('distance:wrong', '', case)
     except Exception as e:
         ctx.violation('distance:raises', repr(e), case)
@@ -675,7 +675,7 @@ def check_multispecies(ctx, lat, case, rng):
         for u1, u2, dx in val:
             d = float(lat.distance(u1, u2, np.asarray(dx)))
             ds = float(sl.distance(u1 // nsp, u2 // nsp, np.asarray(dx)))
-            if abs(d - ds) > 1e-9 or (key.startswith('onsite') and abs(d) > 1e-12):
+            if not (abs(d - ds) <= 1e-9) or (key.startswith('onsite') and abs(d) > 1e-12):
                 ctx.violation('multispecies:pair-distance', 'key %r (%d,%d,%r): distance %r, in the simple lattice %r' % (key, u1, u2, list(np.asarray(dx)), d, ds), case)
                 return
 
